@@ -24,9 +24,10 @@ func init() {
 			"Added after blind round 9: fields of the objects every concurrent reader of a table file shares (sstable.Reader, block fetcher, block cache, I/O manager and what they hold) are written on the read path only under an exclusive lock of those objects. " +
 			"Added after blind round 10: a plain receive on a signal channel published in a struct field needs a close() of that channel (a send releases one waiter), unless the same call sent on it before (semaphore). " +
 			"Added after blind round 10: no TryLock/TryRLock fallback paths in the module (an answer given 'without queueing behind the writer' is an answer from somewhere else than the protected state). " +
-			"Added after blind round 11: the shared table file is read positionally.",
+			"Added after blind round 11: the shared table file is read positionally. " +
+			"Added after blind round 11: the reviewed users of the raw transaction lock are listed here too (a statistics call that takes the isolation lock waits behind the caller's own transaction).",
 		NotDecided: "absence of data races in general (needs a happens-before detector over executions), panics from index arithmetic, goroutine leaks, Close concurrent with other calls (out of the property's scope).",
-		Rules:      []func(*Ctx, *Reporter){ruleGuardedBy, ruleAtomicConsistency, ruleReentrancyScope, ruleLockOrder, ruleTxRelease, ruleLockReleasedOnEveryExit, ruleNoBlockingChanUnderLock, ruleNoSharedMapHandedOut, ruleGuardedMapsUsedUnderLock, ruleSharedReaderPartsWriteUnderLock, ruleSharedWaitsAreBroadcast, ruleNoTryLockFallbacks, rulePositionalReadsOnSharedFiles},
+		Rules:      []func(*Ctx, *Reporter){ruleGuardedBy, ruleAtomicConsistency, ruleReentrancyScope, ruleLockOrder, ruleTxRelease, ruleLockReleasedOnEveryExit, ruleNoBlockingChanUnderLock, ruleNoSharedMapHandedOut, ruleGuardedMapsUsedUnderLock, ruleSharedReaderPartsWriteUnderLock, ruleSharedWaitsAreBroadcast, ruleNoTryLockFallbacks, rulePositionalReadsOnSharedFiles, subRules(ruleTxLockWriters, "txlock-who")},
 	})
 }
 
